@@ -1,7 +1,9 @@
 package scen
 
 import (
+	"encoding/json"
 	"io"
+	"runtime"
 	stdlog "log"
 	"os"
 
@@ -32,3 +34,7 @@ func quiet() {
 
 // hsend / hrecv: harness-side channel operations are scheduler yield points too.
 func hyield(site string) { simrt.Yield(site) }
+
+func jsonMarshal(v interface{}) ([]byte, error) { return json.Marshal(v) }
+
+func runtimeStack(b []byte) int { return runtime.Stack(b, false) }
